@@ -439,7 +439,13 @@ def main():
         if m:
             ck.tally("recovered_panics_reported_as_errors", "%s: %s" % (kind.split("+")[0], m.group(1)[:60]))
         if v:
-            fc = "list-search-exponential-recurring-metavariables" if (kind == "recurring-metavars" and (o["rc"] in (-999, 2) or o["secs"] > 10)) else None
+            # F55: a metavariable bound in one section and used again in a later one defeats the memo of failed places
+            ptxt = case[0].decode("latin-1")
+            mvs = re.findall(r"\b(\w+)\b", (re.search(r"^var (.*) expression$", ptxt, re.M) or [None, ""])[1])
+            minus = "\n".join(l for l in ptxt.split("\n") if l.startswith("-"))
+            recurring = any(len(re.findall(r"\b%s\b" % re.escape(v), minus)) >= 2 for v in mvs)
+            slow = o["rc"] in (-999, 2) or o["secs"] > 10
+            fc = "list-search-exponential-recurring-metavariables" if (kind in ("recurring-metavars", "many-elisions") and recurring and slow) else None
             ck.violation("%s (%s patch)" % (v, kind), {"part": "command line", "kind": kind, "patch": case[0].decode("latin-1"),
                                                        "files": {n: b.decode("latin-1") for n, b in case[1].items()}, "flags": case[2],
                                                        "exit": o["rc"], "stderr": o["stderr"], "secs": round(o["secs"], 2)}, finding_class=fc)
